@@ -18,6 +18,7 @@ from pyvc.values import (B, I, NONE, VBytes, VInt, VNone, VRef, VStr, VTuple, fr
 
 from . import fsmodel as M
 from .common import inst
+from .fs_format import b8_eq_num, field_eq
 
 FI = 'ZODB.FileStorage.FileStorage:FileIterator'
 be = M.be
@@ -257,3 +258,127 @@ class RecordIternext(Spec):
 
 
 SPECS.append(RecordIternext)
+
+
+# ======================================================================================
+class RecordIteratorNext(Spec):
+    """TransactionRecordIterator.__next__ (what copyTransactionsFrom and recovery read): for a transaction whose
+    records tile [pos, tend) it yields, record by record, oid and tid as stored, the DATA OF THE REVISION - the
+    record's own payload, or the payload of the record its back-pointer chain ends in, or None for an un-creation -
+    and as data_txn the tid of the record the back pointer names (None when the record holds its data); the cursor
+    advances by exactly the record length; at tend: StopIteration.
+    Record(...) is taken as storing its arguments (constructor stand-in, its __init__ uses super())."""
+    func = 'ZODB.FileStorage.FileStorage:TransactionRecordIterator.__next__'
+    props = ('C17',)
+    assumptions = ('Record(oid, tid, data, prev, pos) stores its arguments as oid, tid, data, data_txn, pos '
+                   '(constructor stand-in: super().__init__ is outside the language subset)',)
+
+    def setup(self, c, case=None):
+        from .fs_load import bend_fn
+        h = M.mk_fs(c)
+        fo = c.obj(h.file).f
+        c.assume(z3.Not(fo['dirty']))
+        rd = prims.new_file(c, 'iterator_file', arr=fo['arr'], size=fo['size'], mode='rb')
+        it = inst(c, 'ZODB.FileStorage.FileStorage:TransactionRecordIterator', _file=rd, _pos=c.fresh_int('_pos'),
+                  _tpos=c.fresh_int('_tpos'), _tend=c.fresh_int('_tend'))
+        c.ghost[('fs', h.self.id)] = h
+        c.ghost[('fs', it.id)] = h
+        bend_fn(h.g, c)
+        c.roles.seed('pos', c.obj(it).f['_pos'].t)
+        c.ghost['rn'] = {'h': h, 'it': it, 'rd': rd, 'made': []}
+        return {'self': it}
+
+    def definitions(self, c, E):
+        from .fs_load import bend_axioms, bend_fn
+        h = c.ghost['rn']['h']
+        bend_fn(h.g, c)
+        return [bend_axioms(h.F, h.g)]
+
+    def requires(self, c, E):
+        g = c.ghost['rn']
+        h = g['h']
+        F, gg = h.F, h.g
+        idx = c.obj(h.index).f
+        S = c.obj(g['it']).f
+        pos, tpos, tend = S['_pos'].t, S['_tpos'].t, S['_tend'].t
+        main = c.obj(h.file).f
+        rlen = 42 + z3.If(F.plen(pos) == 0, 8, F.plen(pos))
+        return M.RI_chain(F, gg, idx['dom'], idx['val'], h.pos.t)[-1:] + [
+            ('no-unflushed-writes', z3.Not(main['dirty'])),
+            ('inside-a-committed-transaction', z3.And(tpos >= 4, tpos < pos, tend <= h.pos.t, h.pos.t <= main['size'])),
+            ('records-tile-the-transaction', z3.Or(pos >= tend, z3.And(
+                z3.Select(gg.vrec, pos), F.tloc(pos) == tpos, pos + rlen <= tend))),
+            # RI: a back pointer names an earlier record OF THE SAME OBJECT (undo and pack write nothing else)
+            ('back-pointer-names-a-record-of-the-same-object', z3.Implies(
+                z3.And(pos < tend, F.plen(pos) == 0, F.back(pos) != 0), F.oid(F.back(pos)) == F.oid(pos)))]
+
+    def hooks(self, c):
+        def record(cc, interp, args, kwargs, node):
+            r = inst(cc, 'ZODB.FileStorage.FileStorage:Record', oid=args[0], tid=args[1], data=args[2],
+                     data_txn=args[3], pos=args[4])
+            cc.ghost['rn']['made'].append(r)
+            return r
+        return {'construct:ZODB.FileStorage.FileStorage:Record': record}
+
+    @property
+    def loops(self):
+        def inv(cc, fr):
+            p = fr.locals.get('pos')
+            if not isinstance(p, VInt):
+                raise ContractStale('the loop contract expects the local pos: the code has a different shape')
+            S = cc.obj(cc.ghost['rn']['it']).f
+            old = cc.E.old[cc.ghost['rn']['it'].id]
+            return [('every-iteration-leaves-the-loop (cursor still at the entry position)',
+                     z3.And(p.t == old['_pos'].t, S['_pos'].t == old['_pos'].t))]
+
+        def hv(cc, fr):
+            cc.obj(cc.ghost['rn']['rd']).f['pos'] = z3.Int(fresh_name('fpos'))
+        none = lambda cc, fr: NONE
+        return {0: LoopSpec(inv=inv, havoc=hv, kinds={'h': none, 'data': none, 'prev_txn': none, 'tid': none})}
+
+    def modifies(self, c, E):
+        g = c.ghost['rn']
+        return {(g['rd'].id, 'pos'), (g['it'].id, '_pos')}
+
+    def outcomes(self, c, E):
+        from .fs_load import data_is
+        g = c.ghost['rn']
+        h = g['h']
+        F, gg = h.F, h.g
+        S = c.obj(g['it']).f
+        pos, tend = S['_pos'].t, S['_tend'].t
+        rlen = 42 + z3.If(F.plen(pos) == 0, 8, F.plen(pos))
+        back = F.back(pos)
+        d = z3.Select(gg.drec, pos)
+
+        def post(cc, E, r):
+            ok = isinstance(r, VRef) and len(g['made']) == 1 and r.id == g['made'][0].id
+            if not ok:
+                return [('returns-one-new-record', False)]
+            f = cc.obj(r).f
+            data, dt = f['data'], f['data_txn']
+            out = [('oid-as-stored', b8_eq_num(cc, f['oid'], F.oid(pos))),
+                   ('tid-as-stored', b8_eq_num(cc, f['tid'], F.tid(pos))),
+                   ('position-reported', field_eq(cc, f['pos'], pos)),
+                   ('cursor-advanced-by-the-record-length', cc.obj(g['it']).f['_pos'].t == pos + rlen)]
+            if isinstance(data, VNone):
+                out.append(('None-only-for-a-revision-without-data (un-creation)', d == 0))
+            else:
+                out.append(('data-of-the-revision (own payload or the end of the back-pointer chain)',
+                            z3.And(d != 0, data_is(cc, data, F, d)) if isinstance(data, VBytes) else False))
+            if isinstance(dt, VNone):
+                out.append(('no-hint-only-if-the-record-holds-its-data-or-is-an-un-creation',
+                            z3.Or(F.plen(pos) != 0, back == 0)))
+            else:
+                out.append(('hint-is-the-tid-of-the-record-the-back-pointer-names', z3.And(
+                    F.plen(pos) == 0, back != 0, b8_eq_num(cc, dt, F.tid(back)))))
+            return out
+        return [Outcome('record', guard=pos < tend, post=post, result=lambda cc, E: cc.fresh_opaque('record')),
+                Outcome('exhausted', 'raise', 'builtins:StopIteration', guard=pos >= tend,
+                        post=lambda cc, E, x: [('cursor-untouched', cc.obj(g['it']).f['_pos'].t == pos)])]
+
+
+SPECS.append(RecordIteratorNext)
+INLINE += ['ZODB.FileStorage.format:FileStorageFormatter._loadBackTxn',
+           'ZODB.FileStorage.format:FileStorageFormatter.getTxnFromData',
+           'ZODB.FileStorage.format:DataHeader.recordlen']
